@@ -9,6 +9,11 @@ from . import _tvcommon as T
 def main():
     spec = P.SPECS["C17"]
     rep, recs = T.run("C17", spec["families"], spec["level"], spec["text"], optsets=P.optsets_for("C17"), programs=P.programs_for("C17"), fns=P.CODEGEN_FNS)
+    # EndMatch.convert: shape proved for all action lists from the real AST (End -> accepting state with all actions; every data byte -> handler)
+    from . import leaf_proofs
+    from ..pyvc.driver import Program
+    nm = common.load_nmfu()
+    leaf_proofs.run(rep, "C17", ["EndMatch", "DirectMatch", "CaseDirectMatch"], nm, Program(nm, common.repo_source()))
     # data patterns never match End (regexes incl. wildcard / inverted sets; literal matches list characters only)
     from ..rtc import run as rrun, regex_contract
     ps = gen.regex_programs(common.tier() == "thorough", common.seed())
@@ -46,7 +51,8 @@ def main():
     rep.coverage["end_programs_run"] = nrun
     rep.fn("RegexMatch._create_dfa_state (End routed to the error path)", "EndMatch.convert")
     rep.coverage["bound"] = "per program; the End-exclusion of regexes is a run-time contract over the generated regex set (bounded)"
-    return rep.finish(spec["text"] + " Data patterns never consuming End: End clause of the RegexMatch.convert contract over the generated regex set (bounded-exact).", checker_cmd="./check C17")
+    return rep.finish(spec["text"] + " Data patterns never consuming End: End clause of the RegexMatch.convert contract over the generated regex set (bounded-exact); for literal and case-insensitive matches and for `end` itself the shape "
+                      "contracts of DirectMatch/CaseDirectMatch/EndMatch.convert are discharged by pyvc for all literals and action lists (literal states list characters only; `end` lists exactly End).", checker_cmd="./check C17")
 
 
 def end_programs():
